@@ -5,8 +5,11 @@ import rs
 from coqgen import s as cs
 
 # identifiers the generated code uses internally (method/cont.rs, vars.rs ConstVars) - every one is used as a parameter name
-RESERVED = ["actor", "msg", "sender", "receiver", "inter_send", "inter_recv", "debut", "name", "self_", "play", "direct", "count",
+RESERVED = ["actor", "inter_actor", "msg", "sender", "receiver", "inter_send", "inter_recv", "debut", "name", "self_", "play", "direct", "count",
             "inter_msg", "inter_play_stop", "_error", "live"]
+WORDS_MSG = ("inter_send", "inter_recv")      # reserved in messaging methods that take parameters (check_send_recv, without `interact`)
+WORDS_ALL = ("inter_actor",)                  # reserved in every method that takes parameters (check_inter_actor): the actor's binder
+RESERVED_FLAT = ("inter_actor", "inter_send", "inter_recv")   # a FLATTENED pattern must not produce these (check_flat_ident)
 PLAIN = ["a", "b", "c", "x", "y", "n", "val", "key", "item", "v", "k", "q", "w", "h", "t"]
 ODD = ["a_b", "x_y", "_u", "k9", "b_c"]
 SCALARS = ["u8", "i64", "String", "Vec<u8>", "Option<u8>", "&'static str", "bool", "(u8, i8)"]
@@ -91,7 +94,7 @@ def gen_method(rng, name, lib, kind=None, nparams=None, pool=None, negative=None
         nparams = rng.choice([0, 1, 1, 2, 2, 3, 4, 5])
     if pool is None:
         pool = PLAIN + RESERVED + RESERVED + ODD
-        pool = [p for p in pool if p not in ("inter_send", "inter_recv") or kind in ("stat", "slf", "slfmut")]
+        pool = [p for p in pool if p not in WORDS_ALL and (p not in WORDS_MSG or kind in ("stat", "slf", "slfmut"))]
     g = G(rng, dict.fromkeys(pool).keys())
     tys = SCALARS + (SELF_TYPES if self_types else [])
     if generic is None:
@@ -103,8 +106,9 @@ def gen_method(rng, name, lib, kind=None, nparams=None, pool=None, negative=None
         params.append(gen_param(g, rng, tys, "unsupported" if (negative == "pattern" and i == nparams - 1) else None))
     if negative == "pattern" and not params:
         params.append(gen_param(g, rng, tys, "unsupported"))
-    if negative == "inter" and kind in ("ref", "mut"):
-        params.insert(rng.randint(0, len(params)), (rng.choice(["inter_send", "inter_recv", "mut inter_send"]), "u8", "ident"))
+    if negative == "inter":
+        words = ["inter_actor", "mut inter_actor"] + (["inter_send", "inter_recv", "mut inter_send"] if kind in ("ref", "mut") else [])
+        params.insert(rng.randint(0, len(params)), (rng.choice(words), "u8", "ident"))
     if negative == "assoc":
         params.insert(rng.randint(0, len(params)), (g.name(), rng.choice(ASSOC_TYPES), "ident"))
     ret = rng.choice(RETS) if retty == "?" else retty
@@ -216,6 +220,15 @@ def parse_coq_names(v):
     return re.findall(r'"((?:[^"]|"")*)"', v)
 
 
+MODEL_EXPR = "let r := live_args (T:=string) %s in (res_class r, res_names r)"
+
+
+def parse_coq_result(v):
+    """'(0, Some ["a"; "b"])' -> (0, ['a','b']);  '(2, None)' -> (2, None)   class: 0 expanded, 1 unsupported pattern, 2 naming conflict"""
+    m = re.match(r"^\(\s*(\d+)\s*,\s*(.*)\)\s*$", v.strip(), re.S)
+    return int(m.group(1)), parse_coq_names(m.group(2))
+
+
 # ---------------------------------------------------------------------------------------------
 # declarative side, written from the property text (not from the code and not from the Coq model)
 # ---------------------------------------------------------------------------------------------
@@ -281,75 +294,54 @@ def subst_self(ty_text, actor_ty):
     return " ".join(out)
 
 
-CHAR_SET = "}{][)(,"          # model::CHAR_SET: the characters the crate surrounds with blanks before its textual search
-
-
-def wide(printed):
-    s = printed
-    for c in CHAR_SET:
-        s = s.replace(c, " %s " % c)
-    return " " + s + " "
-
-
 def has_self(ty):
     return "Self" in rs.flat(rs.parse(ty))
 
 
-def undelimited(printed):
-    """some occurrence of the token `Self` in rustc's printing is not surrounded by blanks (`Self;`, a line break next to it)"""
-    return rs.flat(rs.parse(printed)).count("Self") > wide(printed).count(" Self ")
-
-
-def elem_of(ty):
-    m = re.match(r"^&\s*('\w+\s+)?(mut\s+)?(.*)$", ty.strip(), re.S)
-    return m.group(3) if m else ty
-
-
-def sig_text(m):
-    t = m["text"]
-    t = t[:t.rindex("{")].strip()
-    if m["kind"] == "slfmut":
-        t = t.replace("(mut self", "(self", 1)     # ModelReceiver::remove_mut runs before the `Self` substitution
-    return t[4:] if t.startswith("pub ") else t
-
-
-def print_jobs(m):
-    """hook jobs whose results (rustc's printing of the signature and of the `Self`-mentioning types) the class predicate needs"""
-    tys = [elem_of(t) for _, t in m["params"] if has_self(t)] + ([m["ret"]] if m["ret"] and has_self(m["ret"]) else [])
-    if not tys:
-        return []
-    return [("fn:sig_string", ["", sig_text(m)])] + [("fn:type_string", ["", t]) for t in tys]
-
-
-def known_classes(m):
-    """decidable classes of inputs on which the unchanged crate is known to fail (known_findings.txt)"""
+def regression_classes(m):
+    """classes of inputs on which the crate used to fail (repaired; `fixed:` lines of known_findings.txt) or still fails
+    (`finding:` lines).  Only classes LISTED as `finding:` are exempt from judgement - see known_classes."""
     out = set()
     names = class_names(m["params"])
     comp = [pat_of_text(p)[0] != "id" for p, _ in m["params"]]
     if m["kind"] != "stat" and "actor" in names:
         out.add("param-named-actor")
-    if len(set(names)) != len(names) or any(c and n in ("inter_send", "inter_recv", "actor") for c, n in zip(comp, names)):
+    if len(set(names)) != len(names) or any(c and n in RESERVED_FLAT + ("actor",) for c, n in zip(comp, names)):
         out.add("flat-name-collision")
     tys = [t for _, t in m["params"]] + ([m["ret"]] if m["ret"] else [])
     if any(re.search(r"\bSelf\s*::", t) for t in tys):
         out.add("self-assoc-path")
-    pr = m.get("printed")
-    if pr:
-        # pr = [printed signature, printed type, ...] in the order of print_jobs
-        if " Self " not in wide(pr[0]) or any(undelimited(x) for x in pr[1:]):
-            out.add("self-print-adjacent")
+    if any(re.search(r"\bSelf\s*;", t) for t in tys) or (any(has_self(t) for t in tys) and len(m["text"]) > 75):
+        out.add("self-print-adjacent")      # `[Self; n]`, or a signature long enough for rustc's printer to wrap it
     return out
 
 
-def word_inter(m):
-    """the documented reserved-name rule: a messaging method with parameters mentions inter_send / inter_recv (without `interact`)"""
-    if m["kind"] not in ("ref", "mut") or not m["params"]:
-        return False
+def known_classes(m, listed):
+    return regression_classes(m) & set(listed)
+
+
+def word_reject(m):
+    """the reserved-name rules: which diagnostics the parameter texts of a method call for"""
+    out = set()
+    if not m["params"]:
+        return out
+    toks = set()
     for p, t in m["params"]:
-        toks = rs.flat(rs.parse(p + " : " + t))
-        if "inter_send" in toks or "inter_recv" in toks:
-            return True
-    return False
+        toks |= set(rs.flat(rs.parse(p + " : " + t)))
+    if m["kind"] in ("ref", "mut") and toks & set(WORDS_MSG):
+        out.add("inter")
+    if toks & set(WORDS_ALL):
+        out.add("inter_actor")
+    return out
+
+
+def py_reject(m):
+    """quick prediction (used only to pack the corpus): is the method expected to be rejected"""
+    pts = [pat_of_text(p) for p, _ in m["params"]]
+    if not all(supported_param(pt) for pt in pts) or word_reject(m):
+        return True
+    names = class_names(m["params"])
+    return len(set(names)) != len(names) or any(pt[0] != "id" and n in RESERVED_FLAT for pt, n in zip(pts, names))
 
 
 def oracle_method(m, mdl, actor_ty, direct_param):
